@@ -85,6 +85,10 @@ class Event:
             elif (n_eq==0) and (rate is None):
                 raise InputStateError("Rate cannot be found in Event or Transitions")
             else:
+                if n_eq==1:
+                    # the single equation carried by a member transition is the event rate
+                    rate=[transition.equation for transition in transition_list
+                          if transition.equation is not None][0]
                 self.rate=rate
                 
         self.transition_list=transition_list
